@@ -53,7 +53,9 @@ package base58
 
 //@ func base58.checksum
 //@   ensures $calls_Sum256 == 2
+//@   ensures forall k :: 0 <= k && k < 4 ==> cksum[k] == b58.cks(input, len(input), k)
 //@   modifies nothing
+//@   assert after Sum256#2: lemma b58_cks_def(input, len(input), $arg0)
 //@   assert after Sum256#1: sameobj($arg0, input) && $arg0.off == input.off && len($arg0) == len(input)
 //@   assert after Sum256#2: len($arg0) == 32 && forall k :: 0 <= k && k < 32 ==> $arg0[k] == h[k]
 //@   assert after copy#1: forall k :: 0 <= k && k < 4 ==> cksum[k] == h2[k]
@@ -93,3 +95,40 @@ package base58
 //@   assert after Encode#1: big.be(b, len(b)) == big.beo(b, b58.lz(b, 0, len(b)), len(b) - b58.lz(b, 0, len(b)))
 //@   assert after Decode#1: lemma beo_unique($ret, b58.lz(b, 0, len(b)), len($ret) - b58.lz(b, 0, len(b)), b, b58.lz(b, 0, len(b)), len(b) - b58.lz(b, 0, len(b)))
 //@   assert after Decode#1: len($ret) == len(b) && forall k :: 0 <= k && k < len(b) ==> $ret[k] == b[k]
+
+//@ lemmafunc base58.lemmaCheckDecodeEncode
+//@   inlines base58.CheckEncode, base58.CheckDecode
+//@   uses b58_rest_nonneg
+//@   bind after CheckEncode/checksum#1: $c = $arg0
+//@   bind after CheckEncode/checksum#1: $ck = $ret
+//@   bind after CheckEncode/Encode#1: $b = $arg0
+//@   bind after CheckEncode/Encode#1: $s = $ret
+//@   assert after CheckEncode/Encode#1: len($s) == len($ret) && len($b) == len($arg0) && (forall k :: 0 <= k && k < len($b) ==> $b[k] == $arg0[k])
+//@   assert after CheckEncode/Encode#1: lemma b58_lz_props($b, len($b), len($b))
+//@   assert after CheckEncode/Encode#1: lemma b58_dig_chr(b58.rest(big.be($b, len($b)), len($s) - b58.lz($b, 0, len($b)) - 1) % 58)
+//@   assert after CheckEncode/Encode#1: b58.lz($b, 0, len($b)) <= len($b) && 0 <= b58.lz($b, 0, len($b))
+//@   assert after CheckEncode/Encode#1: forall k :: 0 <= k && k < len($s) ==> b58[int($s[k])] != 255
+//@   assert after CheckEncode/Encode#1: forall k :: 0 <= k && k < b58.lz($b, 0, len($b)) ==> $s[k] == 49
+//@   assert after CheckEncode/Encode#1: len($s) > b58.lz($b, 0, len($b)) ==> $s[b58.lz($b, 0, len($b))] != 49
+//@   assert after CheckEncode/Encode#1: lemma b58_ones_count($s, b58.lz($b, 0, len($b)), b58.lz($b, 0, len($b)), len($s))
+//@   assert after CheckEncode/Encode#1: b58.ones($s, 0, len($s)) == b58.lz($b, 0, len($b))
+//@   assert after CheckEncode/Encode#1: lemma be_nonneg($b, len($b))
+//@   assert after CheckEncode/Encode#1: lemma b58_val_ones($s, 0, b58.lz($b, 0, len($b)), len($s))
+//@   assert after CheckEncode/Encode#1: lemma b58_val_suffix($s, b58.lz($b, 0, len($b)), len($s), big.be($b, len($b)), len($s) - b58.lz($b, 0, len($b)))
+//@   assert after CheckEncode/Encode#1: b58.valfrom($s, 0, len($s)) == big.be($b, len($b))
+//@   assert after CheckEncode/Encode#1: lemma be_strip($b, b58.lz($b, 0, len($b)), len($b) - b58.lz($b, 0, len($b)))
+//@   assert after CheckEncode/Encode#1: big.be($b, len($b)) == big.beo($b, b58.lz($b, 0, len($b)), len($b) - b58.lz($b, 0, len($b)))
+//@   assert after CheckDecode/Decode#1: lemma beo_unique($ret, b58.lz($b, 0, len($b)), len($ret) - b58.lz($b, 0, len($b)), $b, b58.lz($b, 0, len($b)), len($b) - b58.lz($b, 0, len($b)))
+//@   assert after CheckDecode/Decode#1: len($ret) == len($b)
+//@   assert after CheckDecode/Decode#1: forall k :: 0 <= k && k < b58.lz($b, 0, len($b)) ==> $ret[k] == $b[k]
+//@   assert after CheckDecode/Decode#1: forall k :: 0 <= k && k < len($b) ==> $ret[k] == $b[k]
+//@   assert after CheckDecode/Decode#1: len($b) == len(input) + 5 && len($c) == len(input) + 1 && $b[0] == version && (forall k :: 0 <= k && k < len(input) ==> $b[1 + k] == input[k]) && (forall k :: 0 <= k && k < len($c) ==> $c[k] == $b[k])
+//@   assert after CheckDecode/Decode#1: lemma b58_cks_ext($c, len($c), $b, len($b) - 4)
+//@   assert after CheckDecode/Decode#1: forall k :: 0 <= k && k < 4 ==> $b[len(input) + 1 + k] == b58.cks($b, len(input) + 1, k)
+//@   assert after CheckDecode/checksum#1: lemma b58_cks_ext($arg0, len($arg0), $b, len($b) - 4)
+//@   assert after CheckDecode/checksum#1: forall k :: 0 <= k && k < 4 ==> $ret[k] == $b[len(input) + 1 + k]
+//@   assert after CheckDecode/append#1: len($ret) == len(input) && forall k :: 0 <= k && k < len($ret) ==> $ret[k] == $b[1 + k]
+//@   assert after CheckDecode#1: $ret2 == nil
+//@   assert after CheckDecode#1: $ret1 == version
+//@   assert after CheckDecode#1: len($ret0) == len(input)
+//@   assert after CheckDecode#1: forall k :: 0 <= k && k < len(input) ==> $ret0[k] == input[k]
